@@ -74,7 +74,7 @@ fn grid<E: Engine>(ctx: &RunCtx) -> Vec<Ctor> {
                 v.push(Ctor::Witness { shape: vec![a, b] });
                 for c in 0..=8u8 {
                     v.push(Ctor::Witness { shape: vec![a, b, c] });
-                    if ctx.tier == Tier::Thorough || (a + b + c) % 3 == 0 {
+                    {
                         for d in 0..=8u8 {
                             v.push(Ctor::Witness { shape: vec![a, b, c, d] });
                         }
@@ -314,7 +314,7 @@ pub fn def() -> PropertyDef {
         rule: "Enumerated completely: RangeParameters::init for bit lengths 0..=130 x capacities 0..=130 (engine F) plus large powers of two \
                (2^16 .. 2^63, usize::MAX) and the valid points and their neighbours on Ristretto; RangeStatement::init for commitment counts \
                0..=17 x promise counts 0..=17 x seed presence x capacity {1,2,4,8,16}; RangeWitness::init for the empty vector and every vector \
-               of 1-3 openings (4 openings: one third in the quick tier, all in the thorough tier) with blinding counts 0..=8 each; \
+               of 1-4 openings with blinding counts 0..=8 each; \
                CommitmentOpening::r_len 0..=8; ExtendedMask::assign degree 1..=6 x length 0..=8; ExtensionDegree::try_from for all 256 u8 values \
                and usize in {0..=300, 2^(8k)+i, usize::MAX-5, usize::MAX}; commit with 0..=8 blinding factors x degree 1..=6 (both engines). \
                proptest adds random usize bit lengths / capacities / degrees. Oracle: Ok/Err equals an independently written predicate from the \
